@@ -24,7 +24,8 @@ ASSUMPTIONS = cl.ASSUMPTIONS + [
 ]
 
 
-def c04_unit(wid: str, sid: int, cuts=None, bias=False, use_folder=False):
+def c04_unit(wid: str, sid: int, cuts=None, bias=False, use_folder=False,
+             same_out=None):
     u = grid.learn_unit(wid, sid)
     u["kind"] = "c04"
     u["present"]["derive"]["subsample"] = False
@@ -33,6 +34,9 @@ def c04_unit(wid: str, sid: int, cuts=None, bias=False, use_folder=False):
     u["cut_seed"] = core.grid("cuts", wid, sid)
     u["bias"] = bias
     u["use_folder"] = use_folder
+    # half of the grid points reuse one output directory for all chunks
+    u["same_out"] = (core.grid("c04-sameout", wid, sid) % 2 == 0
+                     if same_out is None else same_out)
     u["wall"] = 1500
     return u
 
@@ -202,6 +206,7 @@ def main(argv=None):
                         gen_defs.load_workload(u["wid"])),
                     "delivered_jobs": r["n_jobs"], "cuts": r["cuts"],
                     "bias": u.get("bias"), "use_folder": u.get("use_folder"),
+                    "same_output_directory": u.get("same_out"),
                     "history": ["learn(all) -> reference"] + [
                         f"restart; pv2puml chunk{j}"
                         + (" -im model" if j else "") + " -om -> "
